@@ -36,6 +36,29 @@ thread_local! {
     // (countdown until the faulting trace call, children to trace before unwinding)
     static FAULT: Cell<Option<(u32, u32)>> = const { Cell::new(None) };
     static TRACE_CALLS: Cell<u32> = const { Cell::new(0) };
+    // countdown until the destructor (of a harness value) that panics
+    static DFAULT: Cell<Option<u32>> = const { Cell::new(None) };
+}
+
+pub fn arm_dfault(at: u32) {
+    DFAULT.with(|f| f.set(Some(at)));
+}
+pub fn disarm_dfault() -> bool {
+    DFAULT.with(|f| f.take().is_some())
+}
+/// Called by every destructor of a harness value: is this the one that panics?
+fn dtor_tick() -> bool {
+    DFAULT.with(|f| match f.get() {
+        Some(0) => {
+            f.set(None);
+            true
+        }
+        Some(n) => {
+            f.set(Some(n - 1));
+            false
+        }
+        None => false,
+    })
 }
 
 pub fn arm_fault(at: u32, pos: u32) {
@@ -305,7 +328,11 @@ impl Drop for Hdr {
     fn drop(&mut self) {
         self.state.set(ST_DEAD);
         self.drops.set(self.drops.get().saturating_add(1));
-        log::destruct(self.serial);
+        let panics = dtor_tick();
+        log::destruct(self.serial, panics);
+        if panics {
+            unwind();
+        }
     }
 }
 
